@@ -5,9 +5,9 @@ from ..fdai import EnumV, AggV, K, SymV, RefV, Cell, Loc, TOP, load, snapshot
 from . import contrib as CB
 
 LEVEL = "other"
-TECHNIQUE = 'abstract device model (sa/rules/devmodel.py): EventRegister::set_condition / set_condition_bits / clear_condition_bits / preset / clear_event and the STATus command handlers (both register sets) are interpreted by the FDAI engine on concrete register words; set_condition is evaluated on bit-sliced inputs that place all 32 per-bit combinations of (event, old, new, ptr, ntr) on several bit positions including bit 15, and the resulting register is compared with the SCPI-99 latch formula; handlers: response value and final registers for boundary words; census of every function that writes a register field; the STATus tree the macros declare (witness device`s `const TREE` evaluated: mnemonics, default nodes, handler types and their register set); uniform words next to the bit-sliced ones'
+TECHNIQUE = 'abstract device model (sa/rules/devmodel.py): EventRegister::set_condition / set_condition_bits / clear_condition_bits / preset / clear_event and the STATus command handlers (both register sets) are interpreted by the FDAI engine on concrete register words; set_condition is evaluated on bit-sliced inputs that place all 32 per-bit combinations of (event, old, new, ptr, ntr) on several bit positions including bit 15, and the resulting register is compared with the SCPI-99 latch formula; handlers: response value and final registers for boundary words; census of every function that writes a register field; the STATus tree the macros declare (witness device`s `const TREE` evaluated: mnemonics, default nodes, handler types and their register set); uniform words next to the bit-sliced ones; history tables (sa/rules/histtable.py): sequences of whole messages and device-side events folded through Node::run on the witness device (its evaluated `const TREE`, the real scpi-contrib handlers, provided trait methods, queue and writers analysed in place), result, response and device state compared after every step with a reference model of the IEEE 488.2 / SCPI-99 status system - condition changes interleaved with ENABle / PTRansition / NTRansition writes, [:EVENt]? / CONDition? reads, PRESet, *CLS and *STB?'
 LEVEL_TEXT = "The register is five plain words. The latch is decided per bit completely (bitwise code is bit-parallel; the sliced inputs cover every combination on several positions, so position-dependent code shows as well); PRESet / *CLS / clear as final-state comparisons; every query answers its word with bit 15 clear and changes nothing except EVENt?, which clears what it returns; ENABle/PTR/NTR store the 16-bit parameter in their own word of the addressed set only. Histories then follow from 'writers enumerated (census), each writer's effect exactly known'."
-LEVEL_NOTE = "Not decided: arbitrary histories (argued from the writer census and the per-writer formulas); device code may write the public fields directly. Trusted: rustc MIR, FDAI models."
+LEVEL_NOTE = "Not decided: histories beyond the enumerated ones (12 x 14 steps quick, 150 x 24 thorough); device code may write the public fields directly. Trusted: rustc MIR, FDAI models."
 
 ER = "scpi_contrib::scpi1999::EventRegister"
 FIELDS5 = {"condition", "event", "enable", "ntr_filter", "ptr_filter"}
